@@ -664,7 +664,7 @@ func (h *c03Case) createPod(t *rapid.T) *c03Pod {
 			pending = append(pending, l)
 		}
 	}
-	if len(pending) > 0 && rapid.IntRange(0, 3).Draw(t, "forLateQuota") == 0 {
+	if len(pending) > 0 && rapid.IntRange(0, 2).Draw(t, "forLateQuota") == 0 {
 		k = -1
 	}
 	switch {
@@ -1335,6 +1335,10 @@ func c03Run(t *testing.T, unit string, rtOn, parOn bool) {
 			}
 			// mostly pods that have a chance: never refused so far, or something was freed on their path since
 			hopeful := func(x *c03Pod) bool { return !x.Rejected || h.relByQ[x.Quota] }
+			if wp := h.pick(t, c03Pending, "windowPod", h.inWindow); wp != nil && h.inWindow(wp) && rapid.Bool().Draw(t, "windowFirst") {
+				h.schedule(t, wp, nil) // the scheduler picks a parked pod up before the migration cycle has moved it
+				return
+			}
 			if pk := h.pick(t, c03Pending, "parkedPod", func(x *c03Pod) bool { return x.Parked && !x.Rejected }); pk != nil && pk.Parked && !pk.Rejected &&
 				rapid.IntRange(0, 2).Draw(t, "parkedFirst") == 0 {
 				h.schedule(t, pk, nil) // a parked pod runs in the default quota before its own quota appears
@@ -1372,7 +1376,7 @@ func c03Run(t *testing.T, unit string, rtOn, parOn bool) {
 			if h.dead {
 				return
 			}
-			pd := h.pick(t, c03Reserved, "reservedPod", nil)
+			pd := h.pick(t, c03Reserved, "reservedPod", h.inWindow)
 			if pd == nil {
 				t.Skip("nothing reserved")
 			}
@@ -1405,6 +1409,9 @@ func c03Run(t *testing.T, unit string, rtOn, parOn bool) {
 			}
 			if !any && rapid.IntRange(0, 7).Draw(t, "idleMigration") > 0 {
 				t.Skip("nothing to migrate")
+			}
+			if any && rapid.IntRange(0, 3).Draw(t, "cycleNotDueYet") > 1 {
+				t.Skip("the window stays open a little longer")
 			}
 			h.migrate()
 		}
